@@ -196,41 +196,70 @@ theorem caches_order_free (c1 c2 : Reuse.Cache) (h1 : c1.wf) (h2 : c2.wf) (t : N
 
 Registering a struct type registers the struct types its fields hold as well; `Recompose` on a
 shared Recomposer then only reads the registry. The container kinds the field walk of
-`registerComposer` follows are read from the source (`recomposerWalkKinds`, the labels of its
-`switch ft.Kind()`). -/
+`registerComposer` follows (`recomposerWalkKinds`, the case labels of its `switch ft.Kind()`) and
+whether the step is repeated for containers of containers (`recomposerWalkLoops`) are read from the
+source. -/
 
-/-- the walk follows this kind of field (generated) -/
-def walkFollows (k : Reuse.Reg.FKind) : Bool :=
-  match k.goName with
-  | none => true
-  | some n => recomposerWalkKinds.contains n
+/-- the walk follows this container kind (generated) -/
+def walkFollows (k : Reuse.Reg.CKind) : Bool := recomposerWalkKinds.contains k.goName
 
-/-- **every way a field can hold a struct type — directly, pointer, slice, map, ARRAY — is followed
-by the field walk** (kernel-evaluated over the regenerated case labels; dropping a kind from the
+/-- **every container kind — pointer, slice, map, ARRAY — is followed by the field walk**
+(kernel-evaluated over the regenerated case labels; dropping a kind from the
 `case reflect.Array, reflect.Slice, reflect.Map, reflect.Ptr:` line breaks this proof), the only
 writers of the registry are the register functions, and the only place that registers on the fly
-is `recomp` (which is why an unfollowed kind means a write during `Recompose`) -/
+is `recomp` (which is why an unreached type means a write during `Recompose`) -/
 theorem recomposer_walk_kinds :
-    (Reuse.Reg.FKind.all.all walkFollows &&
+    (Reuse.Reg.CKind.all.all walkFollows &&
      recomposerWriters.all (fun w => ["alt.Recomposer.RegisterUnmarshalerComposer", "alt.Recomposer.registerAnyComposer",
        "alt.Recomposer.registerComposer"].contains w) &&
      recomposerLazyCallers == ["alt.Recomposer.recomp"]) = true := by decide
 
-/-- **after a struct type has been registered, recomposing a value of it performs no registry
-write** (one level: the step the walk repeats) -/
-theorem C08_registry_closed (reg : List Nat) (t : Reuse.Reg.TyDecl) :
-    Reuse.Reg.lazyWrites (Reuse.Reg.register walkFollows reg t) t = [] := by
-  apply Reuse.Reg.closed_of_follows
-  intro k
+theorem walkFollows_all (k : Reuse.Reg.CKind) : walkFollows k = true := by
   have h := recomposer_walk_kinds
   simp only [Bool.and_eq_true, List.all_eq_true] at h
   exact h.1.1 k (by cases k <;> decide)
 
+/-- **The code as it is**: after a struct type whose fields hold struct types directly or behind ONE
+container has been registered, recomposing a value of it performs no registry write (holds for the
+single-step walk and for the repeated one). -/
+theorem C08_registry_closed (reg : List Nat) (t : Reuse.Reg.TyDecl) (ht : ∀ f ∈ t.fields, f.1.length ≤ 1) :
+    Reuse.Reg.lazyWrites (Reuse.Reg.register walkFollows recomposerWalkLoops reg t) t = [] :=
+  Reuse.Reg.closed_one_level walkFollows walkFollows_all _ reg t ht
+
+/-- the full statement: for EVERY struct type, containers of containers included -/
+def C08_registry_full : Prop :=
+  ∀ (reg : List Nat) (t : Reuse.Reg.TyDecl),
+    Reuse.Reg.lazyWrites (Reuse.Reg.register walkFollows recomposerWalkLoops reg t) t = []
+
+/-- the walk takes a single step (generated; known finding C08-registry-nested-containers). When the
+proposed fix (notes/proposed_fixes/C08_registry_nested_containers.md) is applied this fact flips and
+`C08_registry_full` holds by `C08_registry_closed_repaired`. -/
+theorem walk_single_step : recomposerWalkLoops = false := by decide
+
+/-- **the full statement is false for the code as it is**: a field `LL [][]T` — `T` is registered by
+the first `Recompose` calls, a write to `r.composers` other goroutines read -/
+theorem C08_registry_full_false : ¬ C08_registry_full := by
+  intro h
+  have := h [] ⟨0, [([.slice, .slice], 1)]⟩
+  rw [walk_single_step, Reuse.Reg.one_level_not_closed walkFollows walkFollows_all] at this
+  cases this
+
+/-- the repaired walk (step repeated until the type is no container): closed for every struct type -/
+theorem C08_registry_closed_repaired (reg : List Nat) (t : Reuse.Reg.TyDecl) :
+    Reuse.Reg.lazyWrites (Reuse.Reg.register walkFollows true reg t) t = [] :=
+  Reuse.Reg.closed_loop walkFollows walkFollows_all reg t
+
 /-- and each kind is needed: a walk that skips one leaves a type whose first `Recompose` calls
 write the registry (for `array`: the seeded change C08-m2) -/
-theorem C08_registry_needs_kind (follows : Reuse.Reg.FKind → Bool) (k : Reuse.Reg.FKind) (h : follows k = false) :
-    Reuse.Reg.lazyWrites (Reuse.Reg.register follows [] ⟨0, [(k, 1)]⟩) ⟨0, [(k, 1)]⟩ = [1] :=
-  Reuse.Reg.not_closed_of_skips follows k h
+theorem C08_registry_needs_kind (follows : Reuse.Reg.CKind → Bool) (loops : Bool) (k : Reuse.Reg.CKind)
+    (h : follows k = false) :
+    Reuse.Reg.lazyWrites (Reuse.Reg.register follows loops [] ⟨0, [(Reuse.Reg.needs k, 1)]⟩)
+      ⟨0, [(Reuse.Reg.needs k, 1)]⟩ = [1] :=
+  Reuse.Reg.not_closed_of_skips follows loops k h
+
+/-- instances of the hypothesis of `C08_registry_closed`: `{D T; P *T; S []T; M map[string]T; A [2]T}` -/
+example : ∀ f ∈ (⟨0, [([], 1), ([.ptr], 2), ([.slice], 3), ([.map], 4), ([.array], 5)]⟩ : Reuse.Reg.TyDecl).fields,
+    f.1.length ≤ 1 := by decide
 
 /-- **Shared scripts**: no function of package jp assigns to `Script.template` or an element of it
 after construction (evaluation copies the template into a per-call stack) -/
